@@ -358,6 +358,52 @@ func c10(c *Ctx) {
 					}
 				}
 			})
+			// the same with a result variable: every way the returned value becomes true is a true Match / MatchAny
+			// result (the constant true under such a fact, or the call's result itself, assigned only while the
+			// variable is still false), and it starts out false
+			if !(okT && okF) {
+				isMatch := func(cl *ssa.Call) bool {
+					cal := staticCallee(cl)
+					return cal != nil && (cal.Name() == "Match" || cal.Name() == "MatchAny")
+				}
+				good, sawFalse, sawTrue := true, false, false
+				eachInstr(fn, func(in ssa.Instruction) {
+					rt, ok := in.(*ssa.Return)
+					if !ok || len(rt.Results) != 1 {
+						return
+					}
+					for _, vc := range valueCases(rt.Results[0], rt.Block()) {
+						var cf []canonCond
+						for _, cd := range vc.Conds {
+							cf = append(cf, canonOf(cd))
+						}
+						switch x := vc.V.(type) {
+						case *ssa.Const:
+							if x.Value != nil && x.Value.ExactString() == "true" {
+								if callKnown(cf, isMatch, true) {
+									sawTrue = true
+								} else {
+									good = false
+								}
+							} else {
+								sawFalse = true
+							}
+						case *ssa.Call:
+							stillFalse := boolKnown(cf, func(v ssa.Value) bool { _, isPhi := v.(*ssa.Phi); return isPhi && isBoolType(v.Type()) }, false)
+							if isMatch(x) && stillFalse {
+								sawTrue = true
+							} else {
+								good = false
+							}
+						default:
+							good = false
+						}
+					}
+				})
+				if good && sawFalse && sawTrue {
+					okT, okF = true, true
+				}
+			}
 			r.Check(nm+":any-semantics", okT && okF, fn.Pos(), "returns true on the first matching element, false after the loop (hence false for an empty list)")
 		}
 	})
